@@ -22,13 +22,30 @@ def run(tier, seed, ev):
     import mirrun
     import sprop
     rc1 = tcommon.generic_run(PROP, tier, seed, ev, plan, [
-        "scan classification (orphaned/missing/invalid/corrupted sets) is not decided by this check: directory walking "
-        "and blake3 verification of real files are outside the solver's reach (see not-claimed clauses in DESIGN.md)"],
+        "scan classification (orphaned/missing/invalid/corrupted/staging sets, total_blobs) is decided on a bounded symbolic directory tree; "
+        "directory entries of other types at the blob level (a directory whose name parses as a hash) and I/O errors during the walk are outside"],
         Ns_thorough=(1, 2))
     with mirrun.mir_executor(PROP + "s") as (ex, scr, mir_s):
         plans = [(("delete_orphan", "put"), 1, 2), (("delete_orphan", "remove"), 1, 1)]
         if tier == "thorough":
             plans += [(("delete_orphan", "put"), 2, 2), (("delete_orphan", "delete_orphan"), 1, 2)]
         rc2 = sprop.run_s(PROP, tier, seed, ev, ex, plans)
+        # scan classification on a symbolic directory tree (the real scan_orphans MIR)
+        import mprop
+        import obl_scan as S
+        inst = [(False, True), (True, True)] + ([(False, False), (True, False)] if tier == "thorough" else [])
+        obs = [(f"scan classification verify={vf} {'small' if sm else 'full'} tree", "scan_classification",
+                (lambda vf, sm: lambda ex: S.ob_scan(ex, vf, sm))(vf, sm)) for vf, sm in inst]
+        rc3 = mprop.run_m(PROP, tier, seed, ev, ex, obs, [("src/lib.rs", "replay_scan.rs", "verif_replay_scan")], "replay_scan")
+        rc2 = tcommon.best(rc2, rc3)
+        rc4 = tcommon.crash_image_run(PROP, tier, seed, ev, ex, "kill", inst=[("delete_orphan", 2, 2, 2, "sync"), ("delete_orphans", 2, 2, 2, "sync"),
+                                                                                ("quarantine_orphans", 2, 2, 2, "sync")])
+        rc2 = tcommon.best(rc2, rc4)
+        ev.functions = list(ev.functions) + ["orphan::scan_orphans", "orphan::scan_staging_files", "orphan::verify_blob_integrity (size check; hashing is a model)"]
+        ev.bounds["scan"] = ("symbolic directory tree: level-1 entries A (dir|stray file), B (dir); level-2 C (dir|stray file), D (dir); blob-level leaves "
+                             "c1,d1[,d2] each existing or not, parsing to a symbolic hash or not, symbolic size and content verdict; staging entries "
+                             "s1[,s2] file|dir|absent; index: 2 keys over 2 hashes, arbitrary")
+        ev.assumptions = list(ev.assumptions) + ["read_dir yields exactly the existing children; a blob path parses to at most one hash and distinct "
+                                                 "paths parse to distinct hashes (C18); blake3 verification of a file returns the leaf's verdict"]
         ev.bounds["interleavings"] = "orphan clean-up of a symbolic hash racing with a put / remove (same content possible): every interleaving at lock and blob-I/O granularity; key universe 1/2, hash universe 2"
     return tcommon.best(rc1, rc2)
